@@ -42,8 +42,8 @@ pub fn props() -> Vec<PropCfg> {
         PropCfg {
             id: "C02",
             profiles: &[("C02", 1)],
-            quick_runs: 3000,
-            thorough_runs: 20_000,
+            quick_runs: 6000,
+            thorough_runs: 100000,
             level: "exploration",
             rule: "one case = one process: the global logger is initialised once through a seeded path (init_config, init_config_with_err_handler, init_raw_config with real file appenders, init_file with a custom appender kind) and a seeded configuration, then 1-12 histories run in it: one thread reconfigures through the Handle (levels going up and down) and logs, 0-2 threads log concurrently, all records go through the log macros; after initialisation and after every set_config return log::max_level() and log::logger().enabled() over 16 targets x 5 levels are compared with the model, every record's deliveries with the routing model, every history with register linearizability; non-trivial = the case contains at least one reconfiguration or initialises from a file format; distinct = distinct event-log fingerprints",
             assumptions: &["one reconfiguring thread per history (the property quantifies over sequences of reconfigurations)", "init_raw_config / init_file give no Handle, so those processes only check the initial configuration", "each case costs a process start, so the quick tier is small"],
@@ -53,8 +53,8 @@ pub fn props() -> Vec<PropCfg> {
         PropCfg {
             id: "C03",
             profiles: &[("C03", 1)],
-            quick_runs: 20_000,
-            thorough_runs: 2_000_000,
+            quick_runs: 200000,
+            thorough_runs: 4000000,
             level: "exploration",
             rule: "one case = one seeded logger configuration (1-4 appenders with chains of scripted Accept/Neutral/Reject filters and real ThresholdFilters, per-call failing appenders, loggers over nested / look-alike names, duplicate attachments) and 1-3 threads logging records over 16 targets x 5 levels through the real Logger under one seeded schedule; after every log call the filters consulted, the deliveries and the errors handed to the error handler are compared with the per-attachment model; non-trivial = at least one appender error or one filter short-circuit (Accept/Reject) occurred; distinct = distinct event-log fingerprints",
             assumptions: &["filter responses and appender failures are pure functions of (stub, record), hence independent of the interleaving", "no reconfiguration in this profile (Handle::set_config installs the default stderr handler, so the configured handler is only observable before the first swap)"],
@@ -64,8 +64,8 @@ pub fn props() -> Vec<PropCfg> {
         PropCfg {
             id: "C10",
             profiles: &[("C10", 7), ("C10-hard", 1)],
-            quick_runs: 200_000,
-            thorough_runs: 20_000_000,
+            quick_runs: 2000000,
+            thorough_runs: 40000000,
             level: "exploration",
             rule: "one case = one seeded pattern tree (formatters m/l/t with fill/alignment/min/max specs, fills over multi-byte and syntax characters, nested groups up to depth 3, m <= M), a message built from 1-4 Display pieces over 1-4-byte scalars and combining marks, and a downstream writer that accepts a scripted 1..len bytes per call (may stop inside a character) and answers Interrupted on scripted calls; output compared with the character-exact truncate-then-pad specification; profile C10-hard makes the writer fail for good and only asserts no panic; non-trivial = at least one short write or interruption happened; distinct = distinct fingerprints of (pattern, message, accepted sizes, output)",
             assumptions: &["the fault is injected at the encode::Write trait seam; no threads or clock are involved in this property"],
@@ -75,8 +75,8 @@ pub fn props() -> Vec<PropCfg> {
         PropCfg {
             id: "C15",
             profiles: &[("C15", 3), ("C15-reload", 1)],
-            quick_runs: 12_000,
-            thorough_runs: 500_000,
+            quick_runs: 60000,
+            thorough_runs: 1000000,
             level: "exploration",
             rule: "one case = 2-5 seeded configuration versions with version-tagged stubs, 1-3 logging threads and 1-3 reconfiguring threads (plus appenders that call set_config or log re-entrantly on selected records) on the real Logger/Handle under one seeded schedule with decision points between snapshot load, fan-out, set_max_level and store; per record: no mixture of versions and exact routing under its version; per history: register linearizability (Wing-Gong with memoisation, <= 16 reads / <= 9 writes); no panic, no deadlock; non-trivial = a swap overlapped a log call in time; distinct = distinct event-log fingerprints",
             assumptions: &["interleavings at hook/seam granularity (log.loaded, set_config.built, set_config.stored, every stub entry)", "ArcSwap itself runs for real but only one thread at a time executes"],
@@ -86,8 +86,8 @@ pub fn props() -> Vec<PropCfg> {
         PropCfg {
             id: "C04",
             profiles: &[("C04", 1)],
-            quick_runs: 4000,
-            thorough_runs: 300_000,
+            quick_runs: 60000,
+            thorough_runs: 1000000,
             level: "exploration",
             rule: "one case = one seeded scenario (pre-existing file, open modes, 1-4 threads x records sized around the 1 KiB buffer, up to 3 restart phases, encoder kind) executed under one seeded schedule; non-trivial = at least two append calls overlapped in time (a thread was switched out between invoke and return of its append while another invoked); distinct = distinct event-log fingerprints (FNV-1a over every decision, invoke/return and fault event)",
             assumptions: &[
@@ -101,8 +101,8 @@ pub fn props() -> Vec<PropCfg> {
         PropCfg {
             id: "C05",
             profiles: &[("C05", 1)],
-            quick_runs: 6000,
-            thorough_runs: 300_000,
+            quick_runs: 40000,
+            thorough_runs: 600000,
             level: "exploration",
             rule: "one case = one seeded history (pre-existing active file/archives/bystanders, trigger in {size,time,on-start-up,scripted pre/post}, roller in {delete, fixed window base/count/pattern incl. second mount}, 1-3 writer threads, clean/dirty restarts in either mode) under one seeded schedule, compared byte-for-byte with the directory model after every append; non-trivial = at least one rotation completed; distinct = distinct event-log fingerprints",
             assumptions: &["no fault is injected in this configuration (faults are C08's)", "dirty restarts happen only while no append is in flight", "interleavings at hook/seam granularity"],
@@ -112,8 +112,8 @@ pub fn props() -> Vec<PropCfg> {
         PropCfg {
             id: "C06",
             profiles: &[("C06", 1)],
-            quick_runs: 6000,
-            thorough_runs: 300_000,
+            quick_runs: 40000,
+            thorough_runs: 600000,
             level: "exploration",
             rule: "world R restricted to the real SizeTrigger; record lengths are aimed at limit-1/limit/limit+1 of the running file size; at every consultation the size shown to the policy is compared with fs::metadata, and after every append rotation-iff-over-limit is checked against the byte model; non-trivial = at least one rotation completed; distinct = distinct event-log fingerprints",
             assumptions: &["no fault injected", "size aiming is exact for single-writer phases and approximate under concurrency"],
@@ -123,8 +123,8 @@ pub fn props() -> Vec<PropCfg> {
         PropCfg {
             id: "C07",
             profiles: &[("C07", 3), ("C05", 1)],
-            quick_runs: 8000,
-            thorough_runs: 500_000,
+            quick_runs: 80000,
+            thorough_runs: 1000000,
             level: "exploration",
             rule: "profile C07 (3/4 of the cases): direct Roll::roll calls of the real FixedWindowRoller / DeleteRoller, 1-12 successive rolls over generated trees (pre-existing archives inside, beyond and below the window, gaps, look-alike bystanders; patterns with the index in the file name, in a directory, repeated, under $ENV, on a second mount), whole tree compared with the window model after every roll; profile C05 (1/4): the same roller invariants observed inside full rolling-appender histories; non-trivial = at least one roll completed; distinct = distinct event-log fingerprints",
             assumptions: &["no fault injected (faults are C08's)", "gzip patterns only in the thorough tier (gzip build); zstd not exercised"],
@@ -134,8 +134,8 @@ pub fn props() -> Vec<PropCfg> {
         PropCfg {
             id: "C08",
             profiles: &[("C08", 3), ("C08-obst", 1)],
-            quick_runs: 400,
-            thorough_runs: 20_000,
+            quick_runs: 1500,
+            thorough_runs: 30000,
             level: "fault_enumeration",
             rule: "one history = one seeded world-R scenario (both open modes, pre/post triggers, window sizes, 1-3 writers); profile C08 executes it fault-free, records every occurrence of a rotation-step site (each archive shift, the final move/compress sub-steps, delete, reopen) and re-executes it once per occurrence with an error injected there and once with a crash image taken there (exhaustive per history; evaluations counts all executions); profile C08-obst makes a step fail with its real errno by placing a non-empty directory at an archive name; every faulted execution ends with the bounded-liveness epilogue (same appender, and a fresh appender over the crash image); non-trivial = a fault or crash actually fired; distinct = distinct event-log fingerprints",
             assumptions: &[
@@ -149,8 +149,8 @@ pub fn props() -> Vec<PropCfg> {
         PropCfg {
             id: "C16",
             profiles: &[("C16", 7), ("C16-huge", 1)],
-            quick_runs: 8000,
-            thorough_runs: 500_000,
+            quick_runs: 60000,
+            thorough_runs: 1000000,
             level: "exploration",
             rule: "world R with the real TimeTrigger on the simulated wall clock: 8 POSIX TZ rules (fixed offsets and DST incl. 30-minute and local-midnight transitions) x 7 units x multipliers x modulate x random-delay bound; start instants and clock moves biased to scheduled-1s/scheduled/+1s, unit boundaries, leap day, month/year/ISO-week-year ends, DST gaps and overlaps, backward jumps; every (re)schedule is checked against the calendar oracle; non-trivial = the trigger fired at least once; distinct = distinct event-log fingerprints; profile C16-huge only asserts the no-panic clause for multipliers up to i64::MAX",
             assumptions: &["chrono's UTC->local conversion and naive calendar arithmetic are trusted (the oracle never maps local->UTC through the zone)", "the boundary equation is asserted only when the zone offset is identical at start-of-unit, now and the scheduled instant"],
@@ -160,8 +160,8 @@ pub fn props() -> Vec<PropCfg> {
         PropCfg {
             id: "C17",
             profiles: &[("C17", 1)],
-            quick_runs: 6000,
-            thorough_runs: 300_000,
+            quick_runs: 40000,
+            thorough_runs: 600000,
             level: "exploration",
             rule: "world R restricted to the real OnStartUpTrigger: pre-existing sizes around min_size (incl. 0 and min_size 0), 1-4 threads racing for the first append, restarts re-arming the trigger; non-trivial = a rotation happened or the first appends overlapped; distinct = distinct event-log fingerprints",
             assumptions: &["no fault injected"],
